@@ -15,6 +15,7 @@ import (
 	"strings"
 	"sync"
 	"sync/atomic"
+	"testing/synctest"
 	"time"
 
 	"golang.org/x/net/bpf"
@@ -63,6 +64,7 @@ type Script struct {
 	// Unsync: the sink shares NO state with the capture handles (the harness must not add a happens-before edge
 	// between the sender and the receiver goroutine that real sockets do not have); replies are pre-seeded from a
 	// template probe built from the predictable flow identity.
+	Eager    bool   `json:"eager"` // replies with delay 0 are handled by the receiver before WriteTo returns to the sender
 	Unsync   bool   `json:"unsync"`
 	TVariant string `json:"t_variant"`
 	TEID     int    `json:"t_eid"`
@@ -337,17 +339,30 @@ func (s *sink) Close() error {
 
 func (s *sink) WriteTo(buf []byte, ap netip.AddrPort) error {
 	w := s.w
+	err, eager := s.writeLocked(buf, ap)
+	if eager {
+		// "eager" schedule class: the reply is on the capture handle the moment the probe leaves, and the receiver
+		// goroutine handles it completely BEFORE the sending goroutine gets to run again (a very fast responder and a
+		// descheduled sender). synctest.Wait returns when every other goroutine of the bubble is durably blocked.
+		synctest.Wait()
+	}
+	_ = w
+	return err
+}
+
+func (s *sink) writeLocked(buf []byte, ap netip.AddrPort) (error, bool) {
+	w := s.w
 	w.mu.Lock()
 	defer w.mu.Unlock()
 	b := append([]byte(nil), buf...)
 	v := pkt.Describe(b)
 	if s.closed > 0 {
 		w.log("UseAfterClose", "h", s.id, "op", "write", "run", s.run)
-		return os.ErrClosed
+		return os.ErrClosed, false
 	}
 	if cl, ok := w.fault("write", s.run); ok {
 		_ = cl
-		return SentinelForRun("write", s.run)
+		return SentinelForRun("write", s.run), false
 	}
 	fs := w.flowFor(b, v)
 	w.log("Send", "h", s.id, "run", s.run, "flow", fs.idx, "ttl", v.TTL, "to", ap.Addr().String(), "p", v)
@@ -361,10 +376,19 @@ func (s *sink) WriteTo(buf []byte, ap netip.AddrPort) error {
 	if !ok {
 		reps = w.script.Path["*"]
 	}
+	eager := false
 	for _, r := range reps {
+		if w.script.Eager && r.DelayUs == 0 {
+			r2 := w.perFlow(r, fs)
+			if enc, err := r2.Encode(b, fs.fl); err == nil {
+				w.deliverLocked(enc, r.Tag, v.TTL)
+				eager = true
+			}
+			continue
+		}
 		w.scheduleReply(fs, b, r, v.TTL)
 	}
-	return nil
+	return nil, eager
 }
 
 func flowKey(v pkt.View) string {
